@@ -244,7 +244,11 @@ def failure_edge_is_absent(F, ev, body, sw_block, fail_target, ok_targets, roles
     return False, "on the failure edge the function returns `%s`, not an absent value" % short(v)[:120]
 
 
-def rule_err_discipline(F, ev, R, config, rule="R-ERR-DISCIPLINE"):
+def rule_err_discipline(F, ev, R, config, rule="R-ERR-DISCIPLINE", scope=None):
+    scope_keys = None
+    if scope == "statistics":
+        from rules_panic import stats_scope
+        scope_keys = stats_scope(F)
     try:
         roles = problem_roles(F)
     except AnchorMissing as e:
@@ -253,6 +257,8 @@ def rule_err_discipline(F, ev, R, config, rule="R-ERR-DISCIPLINE"):
     n = 0
     per_method = {}
     for b in sorted(F.bodies.values(), key=lambda b: b.key):
+        if scope_keys is not None and b.key not in scope_keys:
+            continue
         for bi, t in b.calls():
             if not is_model_call(t):
                 continue
